@@ -115,6 +115,18 @@ func c03Input(r *fw.Rand) (string, string) {
 		tail := " " + strings.Repeat(r.Pick([]string{"x", "理", " r"}), fw.PickT(r, []int{0, 1, 40, 85, 122, 500, 1802, 4000}))
 		return head + tail, "dense-long"
 	}
+	if r.P(1, 40) {
+		// a dice operator whose optional count or parameter is written in parentheses, directly
+		// followed by text that cannot follow it (an identifier character, a blank and a word, a
+		// broken operand): if the operator then falls back to its bare form, nothing of the
+		// parenthesised expression may stay behind
+		pre := r.Pick([]string{"", "1 + ", "10 + ", "x = ", "[", "2 * ", "d6 - ", "`{", "f("})
+		n := 2 + r.Intn(8)
+		sub := r.Pick([]string{fmt.Sprintf("(%d)", n), fmt.Sprintf("(%d+1)", n), fmt.Sprintf("(d1+%d)", n), fmt.Sprintf("((%d))", n)})
+		op := r.Pick([]string{"b%s", "p%s", "B%s", "P%s", "d%s", "2d%s", "3d6kh%s", "3d6k%s", "4d6dl%s", "d20min%s", "d20max%s", "2a%s", "a%s", "3a8k%s", "3a8m%s", "3a8q%s", "2c%s", "3c8m%s", "%sd6", "%sa8", "%sc8", "f", "4d%sk2"})
+		brk := r.Pick([]string{"x", "理", "_", "x1", " x", "9", "e", "k", "q", "m", "(", "[0", ".x", " 理由", "b", "d"})
+		return pre + fmt.Sprintf(op, sub) + brk, "paren-count-then-ident"
+	}
 	var head string
 	fam := ""
 	switch r.Intn(6) {
@@ -199,7 +211,7 @@ func c03Input(r *fw.Rand) (string, string) {
 }
 
 var c03Deterministic = []string{
-	"5;{'a':1", "5\n{'a':1", "[x,2]\n[x,2]", "1 || )", "x = 3; x || ", "力量 + \n 'abc", "2 + `a{x", "x reason", "&a = e\ntext", "1 ? 2, x",
+	"1 + b(3)x", "10 + p(7)x", "5;{'a':1", "5\n{'a':1", "[x,2]\n[x,2]", "1 || )", "x = 3; x || ", "力量 + \n 'abc", "2 + `a{x", "x reason", "&a = e\ntext", "1 ? 2, x",
 	"xs=[[1,2],[3]]; xs[0][1", "2d6 + f(1,", "d20 `a{", "d20 + (1", "3d6kh2 'abc", "{'a':1}.a {'b':", "1 + 2 // c\n + ", "a = 4; a[", "func f(){ 1 }; f() f(", "if 1 { 2 } else",
 }
 
@@ -316,7 +328,7 @@ func init() {
 		Floors: func(tier string) map[string]int64 {
 			return map[string]int64{"accepted": 8000, "with_rest": 4000, "fully_consumed": 500}
 		},
-		Rule:        "case = <valid head from 6 families><separator><tail from 6 families> × configuration (seeded); Run(I) on VM-A, Run(Matched) on identically prepared VM-B: Matched+RestInput==I, B succeeds with empty RestInput, Ret/variables/detail/st-log/generator state equal (tree comparison); a third identical run filters observables that are not reproducible on their own. non-trivial = accepted with non-empty Matched; distinct = hash(input, configuration)",
+		Rule:        "case = <valid head from 6 families><separator><tail from 6 families> × configuration (seeded); Run(I) on VM-A, Run(Matched) on identically prepared VM-B: Matched+RestInput==I, B succeeds with empty RestInput, Ret/variables/detail/st-log/generator state equal (tree comparison); a third identical run filters observables that are not reproducible on their own. non-trivial = accepted with non-empty Matched; distinct = hash(input, configuration) Also 'paren-count-then-ident': dice operators whose optional count/parameter is parenthesised, directly followed by text that cannot follow (identifier character, blank and word, broken operand).",
 		Assumptions: []string{"twin state is built from dice-free setup programs", "observables that differ between two identical runs of the same input are not judged here (C06)"},
 	})
 }
